@@ -26,6 +26,9 @@ type Scenario struct {
 	Prefix []world.Op `json:"prefix"`
 	Conc   []world.Op `json:"conc"`
 	Post   []world.Op `json:"post"`
+	// Schedules: instead of enumerating interleavings, run exactly these (each a sequence of proc names, one per step;
+	// when it is used up the first enabled proc runs). For windows that need more requests than the enumeration can afford.
+	Schedules [][]string `json:"schedules,omitempty"`
 }
 
 type Step struct {
@@ -192,6 +195,7 @@ func RunOne(scn Scenario, tmpl, dir string, tr int, seed int64, choices []string
 	}
 	step := 0
 	settle := 0
+	diverge := 0 // waiting for the proc a recorded schedule names next
 	for {
 		if _, err := adopt(0); err != nil {
 			res.Err = err
@@ -273,8 +277,8 @@ func RunOne(scn Scenario, tmpl, dir string, tr int, seed int64, choices []string
 			}
 			if !found {
 				// a watcher that arrived earlier in the recorded run may still be on its way in this one
-				if _, ok := procs[chosen]; !ok && outstanding() && settle < 40 {
-					settle++
+				if _, ok := procs[chosen]; !ok && outstanding() && diverge < 40 {
+					diverge++
 					if _, err := adopt(500 * time.Millisecond); err != nil {
 						res.Err = err
 						return
@@ -282,9 +286,9 @@ func RunOne(scn Scenario, tmpl, dir string, tr int, seed int64, choices []string
 					continue
 				}
 				// the proc may be about to arrive (it was briefly waiting for a harness lock): wait for it
-				if p, ok := procs[chosen]; ok && !p.Done && settle < 40 {
-					settle++
-					time.Sleep(time.Duration(settle) * time.Millisecond)
+				if p, ok := procs[chosen]; ok && !p.Done && diverge < 40 {
+					diverge++
+					time.Sleep(time.Duration(diverge) * time.Millisecond)
 					lockBlocked[chosen] = true
 					continue
 				}
@@ -306,6 +310,7 @@ func RunOne(scn Scenario, tmpl, dir string, tr int, seed int64, choices []string
 				return
 			}
 		}
+		diverge = 0
 		sl := map[string]string{}
 		if step >= len(choices) {
 			for k, v := range cur {
@@ -415,6 +420,26 @@ type Stats struct {
 // executions, and calls emit with the events of every complete execution.
 func Explore(scn Scenario, tmpl, scratch string, seed int64, workers, maxExec int, nextTr *int64, emit func(tr int, evs []world.Event, schedule []string)) (Stats, error) {
 	var st Stats
+	if len(scn.Schedules) > 0 {
+		for _, choices := range scn.Schedules {
+			tr := int(atomic.AddInt64(nextTr, 1))
+			r := RunOne(scn, tmpl, filepath.Join(scratch, fmt.Sprintf("s%d", tr)), tr, seed, choices, nil)
+			if r.Err != nil {
+				return st, fmt.Errorf("scenario %s schedule %v: %v", scn.Name, choices, r.Err)
+			}
+			st.Executions++
+			if len(r.Steps) > st.MaxSteps {
+				st.MaxSteps = len(r.Steps)
+			}
+			sched := make([]string, len(r.Steps))
+			for i, s := range r.Steps {
+				sched[i] = s.Chosen + ":" + s.Labels[s.Chosen]
+			}
+			emit(tr, r.Events, sched)
+		}
+		st.Complete = true
+		return st, nil
+	}
 	var mu sync.Mutex
 	stack := []item{{}}
 	active := 0
